@@ -1,4 +1,15 @@
 import Driver.Loop
 import Driver.Smb
+import Driver.C06
+import Driver.C08
+import Driver.C09
+import Driver.C10
+import Driver.C11
+import Driver.C12
+import Driver.C13
+import Driver.C14
+import Driver.C15
+import Driver.C16
+import Driver.C20
 
-def main : IO Unit := Driver.run (Driver.Smb.entries)
+def main : IO Unit := Driver.run (Driver.Smb.entries ++ Driver.C06.entries ++ Driver.C08.entries ++ Driver.C09.entries ++ Driver.C10.entries ++ Driver.C11.entries ++ Driver.C12.entries ++ Driver.C13.entries ++ Driver.C14.entries ++ Driver.C15.entries ++ Driver.C16.entries ++ Driver.C20.entries)
